@@ -83,6 +83,7 @@ struct World {
 	const void* react_addr = 0;
 	int next_slot_hint = 0;
 	bool run_nontrivial = false;
+	uint32_t ctx_copies0 = 0, ctx_moves0 = 0;
 	std::vector<uint64_t> op_hashes;   // full hashes of the OpExecs finished since last cleared
 };
 static World W;
@@ -152,6 +153,7 @@ static void observe(Node& n, Obs& o) {
 	}
 	if (g_info->f_history) { sut_previous(n.inst, &o.prev); o.has_prev = true; }
 	o.ctx_addr = sut_context_addr(n.inst); o.ctx_tag = sut_context_tag(n.inst);
+	{ uint32_t c = 0, m = 0; sut_context_counts(&c, &m); o.ctx_copies = c - W.ctx_copies0; o.ctx_moves = m - W.ctx_moves0; }
 	if (g_info->f_serial && (g_info->manual || o.active_id != SUT_INVALID)) {
 		std::vector<uint8_t> mem(g_info->serial_obj_size + 64, 0);
 		sut_serial_init(&mem[32], 0);
@@ -496,6 +498,12 @@ static void run_simple(int idx, int kind, const Op* op, int op_index) {
 		W.snaps.push_back(Snapshot());
 		Snapshot& sn = W.snaps.back(); sn.bytes = x.saved_bytes; sn.active = T.active; sn.state = T.open;
 		sn.objmem.assign(mem.begin() + 32, mem.begin() + 32 + g_info->serial_obj_size);
+		// the buffers' own == and != against every earlier snapshot must agree with the bytes
+		for (size_t k = 0; k + 1 < W.snaps.size(); ++k) {
+			const int r = sut_serial_compare(&W.snaps[k].objmem[0], &sn.objmem[0]);
+			const bool same = W.snaps[k].bytes == sn.bytes;
+			if (r != (same ? 1 : 2)) x.compare_bad = true;
+		}
 		x.snapshot_index = static_cast<int>(W.snaps.size()) - 1;
 		break; }
 	case OP_LOAD: {
@@ -569,6 +577,7 @@ RunResult execute_case(const Case& c, const ExecMode& mode) {
 	for (int s = 0; s < ARENA_SLOTS; ++s) { W.slot_used[s] = false; dirty_slot(s); }
 	W.nodes.reserve(1 + MAX_FORKS + 2);
 	check_static(rr.violations);
+	sut_context_counts(&W.ctx_copies0, &W.ctx_moves0);
 
 	{ Node n; n.role = ROLE_AUTH; n.ctx_slot = 0; n.tag = 0x1000 + (c.paint & 0xff) * 2 + (c.paint >> 8 & 1); W.nodes.push_back(n); }
 	const Op* op0 = c.ops.empty() ? 0 : &c.ops[0];
